@@ -28,11 +28,19 @@ import (
 // modifiers within the stack.
 func NewStack(via string) (outer *fifo.Group, inner *fifo.Group) {
 	outer = fifo.NewGroup()
+	// A request or response is still forwarded when one of the modifiers
+	// returns an error, so every member of the stack has to run regardless:
+	// bad framing must not keep Via from being stamped or a loop from being
+	// detected, and hop-by-hop headers are stripped in any case.
+	outer.SetAggregateErrors(true)
+
+	// The framing check runs before the hop-by-hop modifier, which removes
+	// the Transfer-Encoding header the check needs to see.
+	outer.AddRequestModifier(header.NewBadFramingModifier())
 
 	hbhm := header.NewHopByHopModifier()
 	outer.AddRequestModifier(hbhm)
 	outer.AddRequestModifier(header.NewForwardedModifier())
-	outer.AddRequestModifier(header.NewBadFramingModifier())
 
 	vm := header.NewViaModifier(via)
 	outer.AddRequestModifier(vm)
